@@ -44,6 +44,19 @@ def c05_1(ctx):
                 continue
             ctx.check(ok, "sign-write:%s" % txt, ctx.where(f, e.node),
                       "Solver.sign writes `%s`; signing may change only the unlocking script and the witness of the input being signed" % txt, what="write:%s" % txt, sample={"write": txt})
+    # the index that is written is an element of the requested set, not a position in a list derived from it: the loop that
+    # supplies it ranges over the set (or over all inputs), and the context that was validated is the context of that same index
+    import re as _re
+    for e in w.effects:
+        if e.kind == "setattr" and e.attr == "script" and e.loops and norm(e.target).startswith("self.tx.txs_in["):
+            it_ = e.loops[-1].iter
+            it_t = norm(it_) if isinstance(it_, ast.AST) else str(it_)
+            if _re.match(r"^(enumerate\()?range\(len\((?!self\.tx\.txs_in\))", it_t) or (it_t.startswith("range(len(") and "tx_context_for_idx" in it_t):
+                ctx.bad("sign-index-is-requested-index", ctx.where(f, e.node), "Solver.sign writes the script of input `%s`, a POSITION in `%s`, not an element of the requested index set: with a request such as {2} input 0 is validated against and overwritten" % (e.loops[-1].target, it_t[:80]))
+            elif "tx_in_idx_set" in it_t or "self.tx.txs_in" in it_t:
+                ctx.ok("sign-index-is-requested-index", sample={"index_loop": it_t[:80]})
+            else:
+                ctx.undecided("sign-index-is-requested-index", ctx.where(f, e.node), "Solver.sign takes the input index from `%s`; this rule reads loops over the requested set" % it_t[:80])
     idxs = [l.target for e in w.effects for l in e.loops]
     sw = sym.calls_matching(w, "self.tx.set_witness")
     if not sw:
